@@ -1,4 +1,4 @@
-"""C15 - take, clone and clear / reset behave as value operations on builders (query statements: SelectStatement, WindowStatement).
+"""C15 - take, clone and clear / reset behave as value operations on builders (SelectStatement, WindowStatement, and the schema statement builders).
 
 Exec (MIR of the current tree): SelectStatement::{new, take, clear_selects, from_clear, reset_limit, reset_offset}, clear_order_by, the derived Clone and
 PartialEq of SelectStatement and of everything it contains, SeaRc::clone / eq, WindowStatement::take, the builder calls that populate every field
@@ -127,22 +127,110 @@ def window_entry(sampler, out):
         if sampler.want(): out.append({'base': base, 'op': 'window_take'})
     return entry
 
+# ------------------------------------------------------------------ schema statements (Clone, take(); no PartialEq: compared through the renderers)
+def cdef(name, ty='Integer', *specs): return {'name': name, 'type': ty, 'specs': list(specs)}
+def IDXS(*calls): return {'k': 'index_create', 'calls': [list(c) for c in calls]}
+def FKS(*calls): return {'k': 'fk_create', 'calls': [list(c) for c in calls]}
+T = ['t', 'glyph']
+FK0 = [['name', 'fk'], ['from_tbl', T], ['from_col', 'font_id'], ['to_tbl', ['t', 'font']], ['to_col', 'id']]
+def ddl_families(vals):
+    """kind -> (base calls, toggles, extras, take path, clone type, backends)"""
+    return {
+     'table_create': ([['table', T], ['col', cdef('id', 'Integer', 'NotNull')]],
+                      [[['if_not_exists']], [['temporary']], [['col', cdef('n', ['String', ['N', vals['len']]], ['Default', ['val', V('Int', vals['d'])]])]],
+                       [['index', IDXS(['name', 'ix'], ['col', 'n'], ['unique'])]], [['primary_key', IDXS(['col', 'id'])]], [['foreign_key', FKS(*FK0)]],
+                       [['check', ['bin', 'GreaterThan', C('id'), ['val', V('Int', vals['d'])]]]], [['comment', "c'm"]], [['engine', 'InnoDB']], [['collate', 'utf8mb4_bin']], [['character_set', 'utf8mb4']], [['extra', 'WITHOUT ROWID']]],
+                      [['col', cdef('zz', 'Text')], ['if_not_exists'], ['comment', 'later'], ['check', ['bin', 'Equal', C('id'), ['val', V('Int', 1)]]], ['index', IDXS(['name', 'iz'], ['col', 'id'], ['unique'])]],
+                      'table::create::TableCreateStatement', BACKENDS),
+     'table_alter': ([['table', T]],
+                     [[['add_column', cdef('a', 'Integer', ['Default', ['val', V('Int', vals['d'])]])]], [['modify_column', cdef('m', 'BigInteger', 'NotNull')]], [['rename_column', 'o', 'n']], [['drop_column', 'dc']],
+                      [['add_foreign_key', FKS(*FK0)]], [['drop_foreign_key', 'fk_old']]],
+                     [['add_column', cdef('zz', 'Text')], ['drop_column', 'zz']],
+                     'table::alter::TableAlterStatement', ('mysql', 'postgres', 'sqlite')),
+     'table_drop': ([['table', T]], [[['table', ['t', 'font']]], [['if_exists']], [['restrict']], [['cascade']]], [['table', ['t', 'zz']], ['if_exists']],
+                    'table::drop::TableDropStatement', BACKENDS),
+     'table_rename': ([], [[['table', T, ['t', 'glyph2']]]], [['table', ['t', 'zz'], ['t', 'yy']]], 'table::rename::TableRenameStatement', BACKENDS),
+     'table_truncate': ([], [[['table', T]]], [['table', ['t', 'zz']]], 'table::truncate::TableTruncateStatement', ('mysql', 'postgres')),
+     'index_create': ([['table', T], ['col', 'aspect']],
+                      [[['name', 'idx']], [['col', 'image', 'Desc', 16]], [['unique']], [['primary']], [['full_text']], [['nulls_not_distinct']], [['if_not_exists']], [['index_type', 'Hash']], [['include', 'inc']],
+                       [['and_where', ['bin', 'GreaterThan', C('aspect'), ['val', V('Int', vals['d'])]]]]],
+                      [['col', 'zz'], ['unique'], ['name', 'later'], ['include', 'zz'], ['and_where', ['bin', 'Equal', C('zz'), ['val', V('Int', 1)]]]],
+                      'index::create::IndexCreateStatement', BACKENDS),
+     'fk_create': (FK0, [[['on_delete', 'Cascade']], [['on_update', 'SetNull']], [['from_col', 'c2'], ['to_col', 'd2']]], [['on_delete', 'Restrict'], ['from_col', 'zz'], ['name', 'later']],
+                   'foreign_key::create::ForeignKeyCreateStatement', ('mysql', 'postgres')),
+    }
+DDL_KINDS = ['table_create', 'table_alter', 'table_drop', 'table_rename', 'table_truncate', 'index_create', 'fk_create']
+DDL_OPS = ['take', 'clone_then_source', 'clone_then_copy']
+
+def ddl_outcomes(sq, v, trait, meth, backends):
+    from props.sq import BACKENDS as BK
+    e = sq.e; outs = []
+    for b in backends:
+        out = Str([])
+        try:
+            e.call('<Self as backend::%s>::%s' % (trait, meth), [Ref(Cell(Adt(BK[b], None, []))), Ref(Cell(v)), Ref(Cell(out), True)])
+            outs.append(list(out.chars))
+        except Panic:
+            outs.append(['<panic>'])
+    return outs
+
+def ddl_apply(sq, kind, cell, call):
+    """apply one more builder call to the statement in `cell` (rebuild-free: uses the same script layer with a pre-existing statement)"""
+    from props import sqddl
+    sqddl.apply_calls(sq, kind, cell, [call])
+
+def ddl_entry(item, sampler, out):
+    kind, kmax = item
+    def entry(e):
+        from props import sqddl
+        sq = SQ(e)
+        vals = {'d': z3.BitVec('vd', 32), 'len': z3.BitVec('vlen', 32)}
+        base_calls, toggles, extras, path, backends = ddl_families(vals)[kind]
+        op = DDL_OPS[e.choose(len(DDL_OPS), 'op')]
+        sub = choose_subset(e, len(toggles), kmax)
+        if not base_calls and not sub: sub = [0]
+        calls = list(base_calls) + [c for i in sub for c in toggles[i]]
+        base = {'k': kind, 'calls': calls}
+        info = {'base': base, 'op': op, 'extra': None, 'backends': list(backends)}
+        qv, trait, meth = sqddl.build(sq, base); q = Cell(qv)
+        pre, _, _ = sqddl.build(sq, base)
+        R = lambda v: ddl_outcomes(sq, v, trait, meth, backends)
+        if op == 'take':
+            t = e.call(path + '::take', [Ref(q, True)])
+            same_text(e, R(t), R(pre), 'the taken %s statement renders differently from the statement before take()' % kind, info)
+        else:
+            c = Cell(e.call('<%s as Clone>::clone' % path, [Ref(q)]))
+            same_text(e, R(c.v), R(pre), 'the clone of a %s statement renders differently from its source' % kind, info)
+            extra = extras[e.choose(len(extras), 'extra')]; info['extra'] = extra
+            with_extra, _, _ = sqddl.build(sq, {'k': kind, 'calls': calls + [extra]})
+            changed, kept = (q, c) if op == 'clone_then_source' else (c, q)
+            sqddl.apply_calls(sq, kind, changed, [extra])
+            same_text(e, R(kept.v), R(pre), 'a later change to one copy of a %s statement changes how the other renders' % kind, info)
+            same_text(e, R(changed.v), R(with_extra), 'the changed copy of a %s statement renders differently from the statement built with the extra call' % kind, info)
+        if sampler.want():
+            m = e.ensure_model()
+            out.append({'ddl': True, 'base': to_json(base, m), 'op': op, 'extra': to_json(info['extra'], m), 'backends': list(backends)})
+    return entry
+
 def work(w):
     item, prefix, seed = w
     eng = ENG; reset_stats(eng); eng.solver = z3.Solver()
     samples = []; sampler = Sampler(seed, first=1, every=100)
     try:
-        ent = window_entry(sampler, samples) if item == 'window' else entry_for(item, sampler, samples)
+        ent = window_entry(sampler, samples) if item == 'window' else (ddl_entry(item, sampler, samples) if item[0] in DDL_KINDS else entry_for(item, sampler, samples))
         viol = eng.run_all(ent, prefix=prefix)
     except (Budget, Unsupported) as ex:
         return {'inconclusive': '%s: %s' % (type(ex).__name__, ex), 'item': repr(item)}
     vs = []
     for k, msg, m, info in viol:
-        vs.append({'kind': k, 'msg': msg, 'case': None if info is None else {'base': to_json(info['base'], m), 'op': info['op'], 'extra': to_json(info.get('extra'), m), 'expected': to_json(info.get('expected'), m)}})
+        case = None if info is None else {'base': to_json(info['base'], m), 'op': info['op'], 'extra': to_json(info.get('extra'), m), 'expected': to_json(info.get('expected'), m)}
+        if case is not None and 'backends' in info: case['ddl'] = True; case['backends'] = info['backends']
+        vs.append({'kind': k, 'msg': msg, 'case': case})
     return {'stats': eng.stats, 'executed': eng.executed, 'models_used': eng.models_used, 'violations': vs, 'samples': samples, 'item': repr(item)}
 
 def native_req(case):
     if case['op'] == 'window_take': return {'op': 'c15_window', 'base': case['base']}
+    if case.get('ddl'): return {'op': 'c15_ddl', 'stmt': case['base'], 'c15': case['op'], 'extra': case.get('extra'), 'backends': case['backends']}
     return {'op': 'c15_select', 'base': case['base'], 'c15': case['op'], 'extra': case.get('extra'), 'expected': case.get('expected')}
 
 def run(ctx):
@@ -155,19 +243,23 @@ def run(ctx):
                   'later_change': '%d different follow-up calls after clone' % len(EXTRAS), 'window': 'all subsets of the 3 WindowStatement fields',
                   'payloads': 'LIMIT / OFFSET / predicate values symbolic', 'renderers': list(BACKENDS)}
     ctx.assumptions += ['equality is the crate own PartialEq (executed from its MIR); "the statement before the call" is an independently rebuilt copy, not a clone',
-                        'schema statement builders (tables, indexes, foreign keys) are not covered by this harness']
+                        'schema statements have no PartialEq: their equality is observed through the three renderers (a renderer panic is an outcome that must be the same on both sides)']
     work_items = []
     for it in items:
         for p in eng.frontier(entry_for(it, Sampler(0, first=0, every=10**9), []), ctx.workers * 3): work_items.append((it, p, ctx.seed))
     work_items.append(('window', [], ctx.seed))
-    ctx.families = ['select k<=%s ops=%d' % (k, len(o)) for k, o in items] + ['window']
+    ddl_items = [(k, 2 if quick else 12) for k in DDL_KINDS]
+    for it in ddl_items:
+        for p in eng.frontier(ddl_entry(it, Sampler(0, first=0, every=10**9), []), ctx.workers): work_items.append((it, p, ctx.seed))
+    ctx.bounds['schema'] = ['%s: base + subsets of at most %d of its optional builder calls x {take, clone then change source, clone then change copy}; rendered on every backend that has the statement' % it for it in ddl_items]
+    ctx.families = ['select k<=%s ops=%d' % (k, len(o)) for k, o in items] + ['window'] + ['%s k<=%d' % it for it in ddl_items]
     for res in ctx.pmap(work, work_items):
         if not merge_worker(ctx, res): continue
         for s in res['samples']:
             r = nat.ask(native_req(s))
             if r.get('holds'):
                 ctx.validated += 1
-                if len(ctx.samples) < 12: ctx.samples.append({'op': s['op'], 'fields': [c[0] for c in s['base']['calls']]})
+                if len(ctx.samples) < 16: ctx.samples.append({'op': s['op'], 'kind': s['base'].get('k', 'select'), 'fields': [c[0] for c in s['base']['calls']]})
             else: ctx.inconclusive.append('passing path fails natively: %r -> %r' % (s, r))
         for v in res['violations']:
             if v['case'] is None: ctx.inconclusive.append('violation without case: %r' % (v,)); continue
